@@ -52,7 +52,7 @@ META = {
     },
     "C03": {
         "engine": "box-controller",
-        "text": "Frame-condition oracle between consecutive quiescent points: an untouched service whose addresses stayed admissible under every delivered configuration version keeps its set (PreferDualStack gain allowed), is written at most once per configuration version, and the second of two forced re-syncs at the end writes nothing.",
+        "text": "Frame-condition oracle between consecutive quiescent points: an untouched service whose addresses stayed admissible under every delivered configuration version keeps its set (PreferDualStack gain allowed unless the service pins exactly the address it holds), is written at most once per configuration version, and the second of two forced re-syncs at the end writes nothing; the statuses the store starts with are judged over the boot window.",
         "design_ref": "DESIGN.md 2/C03",
         "note": _BOX_NOTE,
         "technique": "runtime monitoring: frame-condition oracle over recorded status writes between quiescent points",
@@ -73,7 +73,7 @@ META = {
     },
     "C06": {
         "engine": "box-controller",
-        "text": "Crash-point x fault-plan enumeration: each base history is executed crash-free to enumerate its crash points (scheduler yields, before/after every status write, after every event), then re-executed with a crash at selected points (all status-write boundaries first) and failing status writes; after the restarted controller is quiescent the oracle checks that recorded admissible addresses were kept, nothing recorded was taken by an unrecorded service, exclusivity and pool policy hold and memory == statuses.",
+        "text": "Crash-point x fault-plan enumeration: each base history is executed crash-free to enumerate its crash points (scheduler yields, before/after every status write, after every event), then re-executed with a crash at selected points (all status-write boundaries first) and failing status writes; after the restarted controller is quiescent the oracle checks that recorded admissible addresses were kept, nothing recorded was taken by an unrecorded service, exclusivity and pool policy hold and memory == statuses; thefts are classified from the allocator memory log (who took the address, in which phase, from a service visited earlier or later by the first full sync).",
         "design_ref": "DESIGN.md 2/C06",
         "note": _BOX_NOTE + " Crash indices are sampled in the quick tier (10 per history) and more densely in the thorough tier (60 per history), not all.",
         "technique": "runtime monitoring with fault injection: crash points and failing writes, restart, state oracle",
@@ -115,7 +115,7 @@ META = {
     },
     "C12": {
         "engine": "direct-speaker",
-        "text": "Metamorphic relation between a view and perturbed views: every removed / added subset is realised through 7 mechanisms (speaker death, NetworkUnavailable, exclude label, advertisement deselect, lost local endpoint, node removed, mixed); the announcer may change only on owner loss or when a newcomer wins, never between two surviving nodes; identical across speakers, services on the address and listing orders; 6-step histories with reused controllers vs fresh ones.",
+        "text": "Metamorphic relation between a view and perturbed views: every removed / added subset is realised through 7 mechanisms (speaker death, NetworkUnavailable, exclude label, advertisement deselect, lost local endpoint, node removed, mixed); the announcer may change only on owner loss or when a newcomer wins, never between two surviving nodes; identical across speakers, services on the address and listing orders; 6-step histories with reused controllers vs fresh ones; every decision is also asked of one long-lived controller per node name and must equal the fresh one (node names and addresses ambiguous as plain concatenation are in the palette).",
         "design_ref": "DESIGN.md 2/C12",
         "note": "Thorough covers every subset for all pairs with |E| <= 5.",
         "technique": "runtime monitoring: metamorphic oracle over decisions of the real controllers",
@@ -129,7 +129,7 @@ META = {
     },
     "C14": {
         "engine": "frr-interp",
-        "text": "Translation validation: for generated session sets (1-4 sessions over 1-2 VRFs, numbered / unnumbered, iBGP / eBGP / dynamic ASN, all session parameters, 0-6 advertisements from overlapping prefixes with different communities and local preferences) the text produced by the real createConfig + templates is parsed and interpreted with FRR's documented prefix-list / route-map / network semantics; per neighbor the offered prefixes, local preference and communities must equal the request, every other prefix must be denied outbound, everything inbound, networks per router must equal the union, parameters must sit on the right neighbor, and the text must not depend on creation order.",
+        "text": "Translation validation: for generated session sets (1-4 sessions over 1-2 VRFs, numbered / unnumbered, iBGP / eBGP / dynamic ASN, all session parameters, 0-6 advertisements from overlapping prefixes with different communities and local preferences) the text produced by the real createConfig + templates is parsed and interpreted with FRR's documented prefix-list / route-map / network semantics; per neighbor the offered prefixes, local preference and communities must equal the request, every other prefix must be denied outbound, everything inbound, networks per router must equal the union, parameters must sit on the right neighbor (a statement for a neighbor that is never declared is a violation), and the text must not depend on creation order.",
         "design_ref": "DESIGN.md 2/C14",
         "note": "Trusted base: harness/lib/frrinterp.go (my reading of FRR semantics; no FRR binary in the sandbox). Session sets the real FRR-mode validator rejects are skipped.",
         "technique": "translation validation: interpreter of the generated configuration text vs the requested routes",
@@ -164,7 +164,7 @@ META = {
     },
     "C19": {
         "engine": "debounce",
-        "text": "The real debouncers (frr: 20 ms / 15 ms retry; frr-k8s variant with the real FRRK8sReconciler on a fake client) are driven with submission scripts (new / identical / revert / re-apply, gaps around the debounce interval, concurrent re-apply requests) and enumerated failure patterns of length <= 6; an offline checker over the stamped event log decides: applied config within the submission window, never backwards, retry after failure without new submission, last success == last submission (bounded progress with starvation canary), submitters return, identical resubmission causes no reload, bursts coalesce. Session-manager variant: the real FRR sessionManager (Set / SyncBFDProfiles / Close) feeds the real debouncer; at every idle point the text applied last must equal a fresh render of the submitted state and identical re-submissions must not reload.",
+        "text": "The real debouncers (frr: 20 ms / 15 ms retry; frr-k8s variant with the real FRRK8sReconciler on a fake client) are driven with submission scripts (new / identical / revert / re-apply, gaps around the debounce interval, concurrent re-apply requests) and enumerated failure patterns of length <= 6 (reload-step failures and, in the file variant, write-step failures through a missing directory); an offline checker over the stamped event log decides: applied config within the submission window, never backwards, retry after failure without new submission, last success == last submission (bounded progress with starvation canary), submitters return, identical resubmission causes no reload, bursts coalesce. Session-manager variant: the real FRR sessionManager (Set / SyncBFDProfiles / Close) feeds the real debouncer; at every idle point the text applied last must equal a fresh render of the submitted state and identical re-submissions must not reload.",
         "design_ref": "DESIGN.md 2/C19",
         "note": "Eventually is decided as bounded progress (100x the interval; inconclusive if the canary saw starvation). reloadValidator's status file path is a constant and is not exercised.",
         "technique": "runtime monitoring: offline trace checker over recorded submit/apply events with injected reload failures + race detector",
